@@ -420,6 +420,13 @@ def fanout_ok_family(tier="quick"):
         "N": Pass(Parameters={"items.$": "$.next", "next": [], "seen.$": "$.res", "again.$": "$.more", "more": False}, Next="C"),
         "C": Choice([{"Variable": "$.again", "BooleanEquals": True, "Next": "M"}], default="Z"),
         "Z": Pass(End=True)}}
+    # ... and the same Parallel state entered twice (each entry is its own fan-out: results and held events must not mix)
+    ploop = {"StartAt": "P", "States": {
+        "P": Parallel([chain(("A1", Task("f_A1", InputPath="$.cur"))), chain(("B1", Task("f_B1", InputPath="$.cur")))], ResultPath="$.res", Next="N"),
+        "N": Pass(Parameters={"cur.$": "$.next", "next": "none", "seen.$": "$.res", "again.$": "$.more", "more": False}, Next="C"),
+        "C": Choice([{"Variable": "$.again", "BooleanEquals": True, "Next": "P"}], default="Z"),
+        "Z": Pass(End=True)}}
+    add("par-reentered-loop", ploop, inp={"cur": "first", "next": "second", "more": True}, workers={"f_A1": {"*": [["echo"]]}, "f_B1": {"*": [["echo"]]}})
     add("map-reentered-loop", loop, inp={"items": ["a1", "a2"], "next": ["b1", "b2"], "more": True}, workers={"fi": {"*": [["echo"]]}})
     # an iteration whose failure is caught inside the iteration, under MaxConcurrency (the slot is marked caught while its fallback runs)
     itc = chain(("I", Task("fi", Catch=[{"ErrorEquals": ["States.ALL"], "Next": "Fix", "ResultPath": "$.e"}])), ("Fix", Task("ffix")))
